@@ -52,14 +52,33 @@ pub fn num_to_tagged(n: &Number) -> Value {
     if !f.is_finite() {
         return json!({"t":"num","f":format!("{}", f)});
     }
-    for q in 1..=1000i64 {
-        let x = f * (q as f64);
-        let r = x.round();
-        if (x - r).abs() <= 1e-9 + 1e-12 * x.abs() && r.abs() < 2_000_000_000.0 {
-            let p = r as i64;
-            let g = gcd(p, q).max(1);
-            return json!({"t":"num","p":p / g,"q":q / g});
+    // continued-fraction expansion: the simplest rational within the tolerance, denominator up to 10^6
+    let (mut h0, mut h1, mut k0, mut k1) = (0i64, 1i64, 1i64, 0i64);
+    let mut x = f;
+    for _ in 0..40 {
+        let a = x.floor();
+        if a.abs() > 2.0e9 {
+            break;
         }
+        let (h2, k2) = ((a as i64).saturating_mul(h1).saturating_add(h0), (a as i64).saturating_mul(k1).saturating_add(k0));
+        if k2 <= 0 || k2 > 1_000_000 || h2.abs() >= 2_000_000_000 {
+            break;
+        }
+        h0 = h1;
+        h1 = h2;
+        k0 = k1;
+        k1 = k2;
+        let approx = (h1 as f64) / (k1 as f64);
+        if (approx - f).abs() <= 1e-15 + 1e-13 * f.abs() {
+            let g = gcd(h1, k1).max(1);
+            let (p, q) = if k1 < 0 { (-h1 / g, -k1 / g) } else { (h1 / g, k1 / g) };
+            return json!({"t":"num","p":p,"q":q});
+        }
+        let frac = x - a;
+        if frac.abs() < 1e-18 {
+            break;
+        }
+        x = 1.0 / frac;
     }
     json!({"t":"num","f":format!("{:?}", f)})
 }
